@@ -14,6 +14,8 @@
    Input line:  <id> <OPCODE> <kinds> <dst> <x> <y> [br=<BO|BNO|UBO|UBNO>]
      kinds = 3 letters (result, x, y) from {i,f,d,l,-}; result '-' = branch instruction
      operand x / y:  r:<hex>           register, loaded from the block by a move before the instruction
+                     k:<hex> register defined IN the function by `mov k, <constant>` (integer kinds; the constant reaches the
+                             instruction through a register: transform_mul_div / power2_int_op of -O2/-O3)
                      i:<hex> | u:<hex> immediate (MIR_new_int_op / MIR_new_uint_op; f/d/l kinds: float imm)
                      m<ty>,<form>,<scale>,<disp>,<index>:<hex>   memory operand; ty = i8 u8 i16 u16 i32 u32 i64 u64 f d ld p,
                         form in {b,d,bd,bi,bid,i,id} (base / displacement / index), <hex> = cell contents
@@ -84,7 +86,7 @@ static int parse_opnd (const char *s, opnd_t *o) {
   memset (o, 0, sizeof (*o));
   o->kind = s[0];
   if (s[0] == '-' || ((s[0] == 'r' || s[0] == 'x' || s[0] == 'y' || s[0] == 'X') && s[1] == 0)) return 1;
-  if (s[0] == 'r' || s[0] == 'i' || s[0] == 'u') {
+  if (s[0] == 'r' || s[0] == 'i' || s[0] == 'u' || s[0] == 'k') {
     if (s[1] != ':') return 0;
     o->val = parse_hex (s + 2);
     return 1;
@@ -651,6 +653,14 @@ static MIR_item_t build_case (MIR_context_t ctx, case_t *c, const char *name) {
         app (&b, MIR_new_insn (ctx, find_code (ctx, c->pre), MIR_new_reg_op (ctx, x2), MIR_new_reg_op (ctx, *sr[i])));
         *sr[i] = x2;
       }
+      ops[1 + i] = MIR_new_reg_op (ctx, *sr[i]);
+    } else if (o->kind == 'k') { /* register holding a constant: mov k, C */
+      if (sk[i] != 'i') {
+        snprintf (err_msg, sizeof (err_msg), "operand k needs an integer kind");
+        longjmp (err_jmp, 1);
+      }
+      *sr[i] = new_reg (&b, MIR_T_I64, i == 0 ? "kx" : "ky");
+      app (&b, MIR_new_insn (ctx, MIR_MOV, MIR_new_reg_op (ctx, *sr[i]), MIR_new_int_op (ctx, (int64_t) (uint64_t) o->val)));
       ops[1 + i] = MIR_new_reg_op (ctx, *sr[i]);
     } else if (o->kind == 'i' || o->kind == 'u') {
       ops[1 + i] = imm_operand (&b, o, sk[i]);
